@@ -774,7 +774,20 @@ impl<'a> Gen<'a> {
         self.scope.truncate(mark);
         let nx = Ins::Next(it.clone());
         let shaped = if self.rng.chance(1, 2) { seq(body, nx) } else { par(body, nx) };
-        let last = if self.rng.chance(1, 3) { Some(Box::new(Ins::Null)) } else { None };
+        // last instruction: none (the fold never completes), null, or a call that may take the iterator (it runs
+        // where the iteration chain of a generation ends)
+        let last = match self.rng.below(6) {
+            0 | 1 => Some(Box::new(Ins::Null)),
+            2 if self.budget > 0 => {
+                self.scope.push(VarInfo { name: it.clone(), shape: shape.clone() });
+                self.iters.push(it.clone());
+                let c = self.gen_call(Ctx { guard: false, ..ctx }, Some("f"));
+                self.iters.pop();
+                self.scope.truncate(mark);
+                Some(Box::new(c))
+            }
+            _ => None,
+        };
         Ins::Fold { iterable: Val::Var(s), it, body: Box::new(shaped), last }
     }
 
